@@ -199,6 +199,7 @@ def overdue_rule(run, f, rid):
     b = need(run, rid, f, M + "::monitor_thread_main")
     if b is None:
         return
+    b = inl(f, b)          # a per-node signalling helper is part of the monitor loop
     cfg = Cfg(b)
     du = DefUse(b)
     pk = find_calls(b, callee_is("nix::sys::pthread::pthread_kill"))
@@ -220,10 +221,29 @@ def overdue_rule(run, f, rid):
             if due_bb is not None and cfg.dominates(due_bb, x) and holds != fails:
                 ok = True
                 why = "pthread_kill dominated by the overdue edge"
-        tgt = repr(describe_val(b, du, t["args"][0]))
         sig = repr(describe_val(b, du, t["args"][1]))
-        if ok and not ("pthread" in tgt and "SIGURG" in sig):
-            ok, why = False, "target %s signal %s" % (tgt[:60], sig[:60])
+        # the thread signalled is the `pthread` FIELD of a node yielded by the monitor's iteration -- read through
+        # value-preserving steps only, not any expression that mentions pthreads (pthread_self() is the monitor itself)
+        tsl = backward(b, t["args"][0], du, at=(x, "term"), through_calls="none")
+        nexts = {y for (y, tt) in tsl.calls if norm(tt.get("orig") or "").endswith("Iterator::next")}
+        others = [norm(tt.get("callee") or "") for (y, tt) in tsl.calls if y not in nexts and not norm(tt.get("callee") or "").endswith(("::deref", "Deref>::deref", "::clone", "Clone>::clone", "Option::unwrap", "Option::expect"))]
+        own_field = "pthread" in tsl.fields and bool(nexts) and not others and not tsl.binops()
+        if ok and not own_field:
+            ok, why = False, "the thread signalled is not the pthread field of the overdue node (fields %s, calls %s)" % (sorted(tsl.fields), others[:3])
+        elif ok and "SIGURG" not in sig:
+            ok, why = False, "signal %s" % sig[:60]
+        if ok:
+            # ... and it is the node whose deadline was tested: the timestamp compared with now() comes from the same next()
+            same = False
+            for blk in b.blocks:
+                for i_, s_ in enumerate(blk["stmts"]):
+                    if s_["k"] == "assign" and s_["rhs"]["k"] == "binop" and s_["rhs"]["op"] in ("Lt", "Le", "Gt", "Ge") and cfg.dominates(blk["id"], x):
+                        for o_ in (s_["rhs"]["a"], s_["rhs"]["b"]):
+                            ssl = backward(b, o_, du, at=(blk["id"], i_), through_calls="none")
+                            if "timestamp" in ssl.fields and nexts & {y for (y, tt) in ssl.calls}:
+                                same = True
+            if not same:
+                ok, why = False, "the node signalled is not the node whose deadline was compared with now()"
     if ok:
         run.ok(rid, "monitor_thread_main/overdue-only", "pthread_kill(node.pthread, SIGURG) only when !(now() < node.timestamp)")
     else:
